@@ -535,6 +535,8 @@ fn lonely_flood(w: &mut World6, r: &mut Rng) {
         good.update();
         let msgs: Vec<_> = good.world_mut().resource_mut::<RepliconClient>().drain_sent().collect();
         for (ch, m) in msgs {
+            // (a truncated copy from a hostile connection is queued in front of it on the same channel)
+            server.world_mut().resource_mut::<RepliconServer>().insert_received(hostile[0], ch, m.slice(..1.min(m.len())));
             server.world_mut().resource_mut::<RepliconServer>().insert_received(ge, ch, m);
         }
         w.frames += 1;
